@@ -42,7 +42,7 @@ def free_fn(rng):
 
 
 def run(ctx):
-    n_hist = ctx.budget(160, 5000)
+    n_hist = ctx.budget(160, 10000)
     cases = []
     if ctx.replay:
         c = ctx.replay["case"]
@@ -74,4 +74,4 @@ def run(ctx):
     model = ctx.model(lines)
     ctx.compare("allocate/close/abort history on a simulated disk (accepted sets, allocated_size, container bytes)",
                 recs, impl, model)
-    ctx.sample({"line": lines[1][:300], "impl": impl[1][:300]})
+    ctx.sample({"line": lines[-1][:300], "impl": impl[-1][:300]})
